@@ -286,6 +286,29 @@ impl LruManager {
             }
         }
 
+        // A checkpoint written by a tracker of another capacity: rebuild the
+        // table in this tracker's own size, keeping the most recently used
+        // entries, so that it neither exceeds nor loses its capacity.
+        if self.entries.len() != self.capacity as usize {
+            let mut order = Vec::with_capacity(self.key_map.len());
+            let mut idx = self.header.lru_tail;
+            while idx != LRU_SENTINEL {
+                let entry = self.entries[idx as usize];
+                order.push((entry.ekey, entry.flags));
+                idx = entry.next;
+            }
+            let version = self.header.version;
+            self.reset();
+            self.header.version = version;
+            let skip = order.len().saturating_sub(self.capacity as usize);
+            for (ekey, flags) in &order[skip..] {
+                self.touch(ekey);
+                if let Some(&slot) = self.key_map.get(ekey) {
+                    self.entries[slot as usize].flags = *flags;
+                }
+            }
+        }
+
         self.generation = generation;
         debug!(
             "LRU loaded: {} entries from {}",
